@@ -4,6 +4,8 @@ import (
 	"errors"
 	"fmt"
 	"io"
+	"runtime"
+	"strings"
 
 	"github.com/godaddy/asherah/go/securememory"
 
@@ -21,6 +23,7 @@ type SecretRec struct {
 	Random     bool
 	Closing    bool
 	Closed     bool
+	Site       string // chain of SDK functions that created the secret (innermost first)
 	CloseCalls int
 	Readers    int
 	bytes      []byte
@@ -84,7 +87,7 @@ func (f *ledgerFactory) New(b []byte) (securememory.Secret, error) {
 		return nil, errors.New("invalid secret length")
 	}
 	f.w.retain("sf.new.arg", b)
-	rec := &SecretRec{N: len(f.w.Ledger.Secrets), FP: refimpl.FP(b), Size: len(b), Op: c.Op, Proc: f.proc, bytes: append([]byte(nil), b...), shadow: append([]byte(nil), b...)}
+	rec := &SecretRec{N: len(f.w.Ledger.Secrets), FP: refimpl.FP(b), Size: len(b), Op: c.Op, Proc: f.proc, Site: sdkChain(), bytes: append([]byte(nil), b...), shadow: append([]byte(nil), b...)}
 	for i := range b { // both real factories wipe the source
 		b[i] = 0
 	}
@@ -108,7 +111,7 @@ func (f *ledgerFactory) CreateRandom(size int) (securememory.Secret, error) {
 		f.w.leave(c, "randerr")
 		return nil, err
 	}
-	rec := &SecretRec{N: len(f.w.Ledger.Secrets), FP: refimpl.FP(b), Size: size, Op: c.Op, Proc: f.proc, Random: true, bytes: b, shadow: append([]byte(nil), b...)}
+	rec := &SecretRec{N: len(f.w.Ledger.Secrets), FP: refimpl.FP(b), Size: size, Op: c.Op, Proc: f.proc, Random: true, Site: sdkChain(), bytes: b, shadow: append([]byte(nil), b...)}
 	f.w.Ledger.Secrets = append(f.w.Ledger.Secrets, rec)
 	f.w.leave(c, fmt.Sprintf("secret#%d", rec.N))
 	return &ledgerSecret{w: f.w, rec: rec}, nil
@@ -196,3 +199,36 @@ func (r *secretReader) Read(p []byte) (n int, err error) {
 }
 
 func (s *ledgerSecret) NewReader() io.Reader { return &secretReader{s: s} }
+
+// sdkChain names the functions of the code under test on the current call stack (innermost
+// first, at most 8), e.g. "NewCryptoKey<systemKeyFromEKR<loadSystemKey<...". It identifies the
+// call site of an allocation in violation signatures.
+func sdkChain() string {
+	var pcs [48]uintptr
+	n := runtime.Callers(3, pcs[:])
+	frames := runtime.CallersFrames(pcs[:n])
+	var out []string
+	for {
+		fr, more := frames.Next()
+		if strings.Contains(fr.Function, "godaddy/asherah") {
+			name := fr.Function
+			if i := strings.LastIndex(name, "/"); i >= 0 {
+				name = name[i+1:]
+			}
+			if i := strings.Index(name, "."); i >= 0 {
+				name = name[i+1:]
+			}
+			name = strings.NewReplacer("(*", "", ")", "", "[...]", "").Replace(name)
+			if len(out) == 0 || out[len(out)-1] != name {
+				out = append(out, name)
+			}
+			if len(out) == 8 {
+				break
+			}
+		}
+		if !more {
+			break
+		}
+	}
+	return strings.Join(out, "<")
+}
